@@ -14,7 +14,7 @@ ID = "C07"
 LEVEL = "model_checking"
 TECHNIQUE = "exhaustive enumeration of bounded simulations x all 40 option combinations of the sorting algorithms; safety oracle (real network.is_feasible, real EVSE acceptance, true remaining demand, estimator bound) evaluated at every scheduler invocation reached"
 RULE = (
-    "networks N2/N4 (three-phase, mixed-sign, continuous + finite EVSEs) x all 1..k-subsets of a session alphabet (station x arrival x stay x {battery-limited, fast, nearly finished, two-stage}) "
+    "networks N2/N5 (three-phase, mixed-sign, continuous + finite EVSEs) x all 1..k-subsets of a session alphabet (station x arrival x stay x {battery-limited, fast, nearly finished, two-stage}) "
     "x {greedy, round-robin} x 5 sort orders x estimator on/off x uninterrupted on/off; states = (occupancy, per-session remaining demand bucket, estimator bounds) at each invocation; "
     "non-trivial = invocation in which some pilot is limited below the EVSE maximum by a constraint, the remaining demand or the estimator"
 )
@@ -27,11 +27,11 @@ CHUNK = 20
 
 
 def bounds(tier, seed):
-    return {"nets": ["N2", "N4"], "kmax": 3 if tier == "thorough" else 2, "options": 40}
+    return {"nets": ["N2", "N5"], "kmax": 3 if tier == "thorough" else 2, "options": 40}
 
 
 def space(tier, seed):
-    return list(A.scenarios(tier, ["N2", "N4"]))
+    return list(A.scenarios(tier, ["N2", "N5"]))
 
 
 def check(scn, tr, out):
